@@ -43,7 +43,8 @@ def atom_specs(tier):
     out += [("python_version", "in", "3.7, 3.8", False), ("python_version", "not in", "3.7, 3.8", False),
             ("python_version", ">", "3.8", True), ("python_version", "<=", "3.7", True),
             ("python_version", ">", "3", False), ("python_version", ">=", "3", False), ("python_version", "<", "3.10", False),
-            ("python_version", "<", "4.0", False)]
+            ("python_version", "<", "4.0", False), ("python_version", "!=", "3.7.0", False),
+            ("python_version", ">=", "3.8.0", False)]
     for op in ("<", "<=", "==", "!=", ">=", ">"):
         for v in ("3.7.2", "3.8.0"):
             out.append(("python_full_version", op, v, False))
@@ -162,9 +163,16 @@ def level2(task):
         if k not in cache:
             cache[k] = rebuild(dom, k)
         return cache[k]
+    results = {}
     for ka, kb, opn in pairs:
-        _apply(dom, J, judge_fn, opn, obj(ka), obj(kb))
-    return {"fails": J.fails, "n": J.n, "nontriv": J.nontriv, "skipped": J.skipped, "samples": J.samples}
+        try:
+            oa, ob = obj(ka), obj(kb)
+        except PyRaise as e:
+            J.fail("R-ctor", f"{ka[0]}/{kb[0]}.__init__", f"constructing an operand of kind {ka[0]} / {kb[0]} raises {e.exc!r}")
+            continue
+        _apply(dom, J, judge_fn, opn, oa, ob, results)
+    return {"fails": J.fails, "n": J.n, "nontriv": J.nontriv, "skipped": J.skipped, "samples": J.samples,
+            "keys": list(results.keys())}
 
 
 _JUDGES = {}
@@ -174,8 +182,9 @@ def register(name, fn):
     _JUDGES[name] = fn
 
 
-def explore(chk, judge_name, budget2=None):
+def explore(chk, judge_name, budget2=None, want_keys=False):
     """run level 1 exhaustively and level 2 up to a budget; feed failures into chk. Returns stats."""
+    chk.rule("R-ctor", "operands of the exploration are constructible through the repository's constructors")
     src = str(chk.src)
     tier = chk.tier
     dom = domain(src)
@@ -227,6 +236,27 @@ def explore(chk, judge_name, budget2=None):
             else:
                 pair = (kc, compounds[rnd.randrange(len(compounds))])
             pairs.append(pair + (("&", "|")[(i // 4) % 2],))
+    # (c) structured family: (x & y) | (x & z) and (x | y) & (x | z) with y, z on one variable and x on another
+    fam = []
+    by_var = {}
+    for ka in atom_keys:
+        by_var.setdefault(ka[1], []).append(ka)
+    for var, ys in by_var.items():
+        xs = [ka for ka in atom_keys if ka[1] != var and not (ka[1].startswith("python") and var.startswith("python"))]
+        for y in ys:
+            for z in ys:
+                if y != z:
+                    for x in xs:
+                        fam.append((x, y, z))
+    rnd.shuffle(fam)
+    nfam = 1200 if tier == "quick" else 40000
+    stats["level2_shared_child_family"] = min(nfam, len(fam))
+    stats["level2_shared_child_family_space"] = len(fam)
+    for i, (x, y, z) in enumerate(fam[:nfam]):
+        if i % 2 == 0:
+            pairs.append((("MultiMarker", x, y), ("MultiMarker", x, z), "|"))
+        else:
+            pairs.append((("MarkerUnion", x, y), ("MarkerUnion", x, z), "&"))
     space = [0] * (len(compounds) * (len(atom_keys) + len(groups)) * 2)
     cc = [0] * 0
     stats["level2_space_compound_pairs"] = len(compounds) ** 2 * 2 + len(space) * 2
@@ -235,6 +265,7 @@ def explore(chk, judge_name, budget2=None):
     del space, cc
     per = max(1, (len(pairs) + chk.jobs * 3 - 1) // (chk.jobs * 3))
     tasks2 = [(src, tier, pairs[i:i + per], judge_name) for i in range(0, len(pairs), per)]
+    keys2 = {}
     for r in parallel(level2, tasks2, chk.jobs):
         stats["level2_ops"] += r["n"]
         stats["skipped_budget"] += r["skipped"]
@@ -243,5 +274,91 @@ def explore(chk, judge_name, budget2=None):
             chk.fail(*f)
         for s in r["samples"]:
             chk.sample(s)
+        for k in r["keys"]:
+            keys2[k] = True
     stats["nontrivial"] = nontriv
+    if want_keys:
+        allk = dict(keys)
+        for _, a in atoms:
+            allk[dom.key(a)] = True
+        allk.update(keys2)
+        stats["keys"] = allk
+    return stats
+
+
+# ------------------------------------------------------------------------------------------------ phase U
+_UFUNCS = {}
+
+
+def register_u(name, fn):
+    _UFUNCS[name] = fn
+
+
+def _phase_u(task):
+    src, tier, keys, fname = task
+    dom = domain(src)
+    fn = _UFUNCS[fname]
+    J = Judge()
+    for k in keys:
+        try:
+            m = rebuild(dom, k)
+        except PyRaise as e:
+            J.fail("R-ctor", f"{k[0]}.__init__", f"constructing a marker of kind {k[0]} raises {e.exc!r}")
+            continue
+        try:
+            fn(dom, J, m)
+        except Undefined:
+            J.skipped += 1
+        except AnalysisError as e:
+            if "step budget" in str(e):
+                J.skipped += 1
+            else:
+                raise
+    return {"fails": J.fails, "n": J.n, "nontriv": J.nontriv, "skipped": J.skipped, "samples": J.samples}
+
+
+def collect_universe(chk, limit=None, budget2=None):
+    """distinct level-0/1/2 results (keys), through the 'collect' judge (no judgement)."""
+    if budget2 is None:
+        budget2 = 1500 if chk.tier == "quick" else 20000
+    stats = explore(chk, "collect", budget2=budget2, want_keys=True)
+    keys = stats.pop("keys")
+    keys[("AnyMarker",)] = True
+    keys[("EmptyMarker",)] = True
+    allk = sorted(keys, key=repr)
+    simple = [k for k in allk if k[0] not in ("MultiMarker", "MarkerUnion")]
+    comp = [k for k in allk if k[0] in ("MultiMarker", "MarkerUnion")]
+
+    def nested(k):
+        return any(isinstance(c, tuple) and c and c[0] in ("MultiMarker", "MarkerUnion", "EqualityMarkerUnion", "InequalityMultiMarker")
+                   for c in k[1:])
+    deep = [k for k in comp if nested(k)]
+    flat = [k for k in comp if not nested(k)]
+    rnd = random.Random(chk.seed)
+    rnd.shuffle(deep)
+    rnd.shuffle(flat)
+    if limit is not None:
+        half = limit // 2
+        deep_take = deep[: max(half, limit - len(flat))]
+        flat_take = flat[: limit - len(deep_take)]
+        comp = deep_take + flat_take
+    return simple + comp, len(allk)
+
+
+register("collect", lambda dom, J, opn, a, b, kind, r: None)
+
+
+def phase_u(chk, keys, fname):
+    src = str(chk.src)
+    per = max(1, (len(keys) + chk.jobs * 3 - 1) // (chk.jobs * 3))
+    tasks = [(src, chk.tier, keys[i:i + per], fname) for i in range(0, len(keys), per)]
+    stats = {"n": 0, "skipped": 0, "nontriv": 0}
+    for r in parallel(_phase_u, tasks, chk.jobs):
+        stats["n"] += r["n"]
+        stats["skipped"] += r["skipped"]
+        stats["nontriv"] += r["nontriv"]
+        for f in r["fails"]:
+            chk.fail(*f)
+        for s in r["samples"]:
+            chk.sample(s)
     return stats
